@@ -9,6 +9,12 @@ func VFRun(env *vfc.Env) {
 	switch env.Mode {
 	case "db.c01":
 		vfHistories(env, "c01", nil)
+	case "db.c08":
+		vfC08(env)
+	case "db.c15":
+		vfC15(env)
+	case "db.c10":
+		vfC10(env)
 	case "db.c13":
 		vfHistories(env, "c13", nil)
 	case "db.gc":
